@@ -517,14 +517,12 @@ Section Operand.
     - apply IH. eapply edge_in_states. exact He.
   Qed.
 
-  Lemma lookups_ok_of_keyed : rows_keyed A = true -> lookups_ok A = true.
+  Lemma lookups_ok_valid : lookups_ok A = true.
   Proof.
-    intro Hk. destruct ops_valid_parts as (_ & _ & _ & Hr & Hi & _ & Hf).
+    destruct ops_valid_parts as (_ & _ & _ & Hr & Hi & _ & Hf).
     unfold lookups_ok. repeat rewrite andb_true_iff. split; [split|].
-    - apply forallb_forall. intros [q r] Hin. simpl. destruct r as [|e r']; [reflexivity|].
-      apply andb_true_iff. split.
-      + unfold rows_keyed in Hk. rewrite forallb_forall in Hk. apply (Hk _ Hin).
-      + apply forallb_forall. intros [a l] Hal. simpl. apply subsetb_incl. eapply Hr; eassumption.
+    - apply forallb_forall. intros [q r] Hin. simpl. apply orb_true_iff. right.
+      apply forallb_forall. intros [a l] Hal. simpl. apply subsetb_incl. eapply Hr; eassumption.
     - apply memb_In. exact Hi.
     - apply subsetb_incl. exact Hf.
   Qed.
@@ -705,11 +703,10 @@ Section Union.
         * unfold union_fin. apply in_or_app. right. apply in_map. exact Hq.
   Qed.
 
-  Theorem ops_union_total : rows_keyed A = true -> rows_keyed B = true ->
-    exists R, nfa_union A B = Ok R /\ valid_nfa R = true.
+  Theorem ops_union_total : exists R, nfa_union A B = Ok R /\ valid_nfa R = true.
   Proof.
-    intros HkA HkB. exists (union_pre A B). split; [|apply union_pre_valid].
-    unfold nfa_union. rewrite (lookups_ok_of_keyed A HvA HkA), (lookups_ok_of_keyed B HvB HkB). simpl.
+    exists (union_pre A B). split; [|apply union_pre_valid].
+    unfold nfa_union. rewrite (lookups_ok_valid A HvA), (lookups_ok_valid B HvB). simpl.
     apply check_nfa_ok. apply union_pre_valid.
   Qed.
 
@@ -864,11 +861,10 @@ Section Concat.
       apply (embed_fwd B EC (pair 2) concat_edge2). exact Hv.
   Qed.
 
-  Theorem ops_concat_total : rows_keyed A = true -> rows_keyed B = true ->
-    exists R, nfa_concat A B = Ok R /\ valid_nfa R = true.
+  Theorem ops_concat_total : exists R, nfa_concat A B = Ok R /\ valid_nfa R = true.
   Proof.
-    intros HkA HkB. exists (concat_pre A B). split; [|apply concat_pre_valid].
-    unfold nfa_concat. rewrite (lookups_ok_of_keyed A HvA HkA), (lookups_ok_of_keyed B HvB HkB). simpl.
+    exists (concat_pre A B). split; [|apply concat_pre_valid].
+    unfold nfa_concat. rewrite (lookups_ok_valid A HvA), (lookups_ok_valid B HvB). simpl.
     apply check_nfa_ok. apply concat_pre_valid.
   Qed.
 
@@ -1149,16 +1145,9 @@ End FreshThms.
 Section Reverse.
   Variable A : nfa.
   Hypothesis Hv : valid_nfa A = true.
-  Hypothesis Hk : rows_keyed A = true.
   Let n := fresh (n_states A).
   Let xs := n_states A ++ [n].
   Let ER := xedge (reverse_rowof A n).
-
-  Lemma keyed_in q : In q (map fst (n_trans A)) -> In q (n_states A).
-  Proof.
-    intro H. apply in_map_iff in H. destruct H as [[q' r] [E Hin]]. simpl in E. subst q'.
-    unfold rows_keyed in Hk. rewrite forallb_forall in Hk. apply memb_In. apply (Hk _ Hin).
-  Qed.
 
   Lemma edge_src_keyed p a x : n_edge A p a x -> In p (map fst (n_trans A)).
   Proof. intro H. apply edge_assoc in H. destruct H as [r [E _]]. eapply assoc_Some_key. exact E. Qed.
@@ -1169,10 +1158,10 @@ Section Reverse.
     right. apply in_map. apply memb_In. exact H.
   Qed.
 
-  Lemma rev_sources_In x a p : In p (rev_sources A x a) <-> n_edge A p a x.
+  Lemma rev_sources_In x a p : In p (rev_sources A x a) <-> In p (n_states A) /\ n_edge A p a x.
   Proof.
-    unfold rev_sources. rewrite filter_In. rewrite memb_In. split; [tauto|].
-    intro H. split; [eapply edge_src_keyed; exact H|exact H].
+    unfold rev_sources. rewrite !filter_In, !memb_In. split; [tauto|].
+    intros [Hp H]. split; [split; [eapply edge_src_keyed; exact H|exact Hp]|exact H].
   Qed.
 
   Lemma reverse_edge_n a y : ER n a y <-> a = None /\ In y (n_finals A).
@@ -1182,26 +1171,23 @@ Section Reverse.
     - intros [-> Hy]. eexists. split; [reflexivity|]. unfold xtg. simpl. exact Hy.
   Qed.
 
-  Lemma reverse_edge x a y : In x (n_states A) -> (ER x a y <-> n_edge A y a x).
+  Lemma reverse_edge x a y : In x (n_states A) -> (ER x a y <-> In y (n_states A) /\ n_edge A y a x).
   Proof.
     intro Hx. unfold ER, xedge, reverse_rowof. pose proof (fr_neqb A x Hx) as En. fold n in En. rewrite En. split.
     - intros [r [Er Hy]]. inversion Er; subst r. apply tab_tg in Hy. destruct Hy as [_ Hy].
       apply rev_sources_In. exact Hy.
     - intro H. eexists. split; [reflexivity|]. apply tab_tg. split; [|apply rev_sources_In; exact H].
-      apply filter_In. split; [eapply edge_okeys; exact H|]. apply nonempty_In. exists y. apply rev_sources_In. exact H.
+      apply filter_In. split; [eapply edge_okeys; apply H|]. apply nonempty_In. exists y. apply rev_sources_In. exact H.
   Qed.
-
-  Lemma reverse_src_in x a y : n_edge A y a x -> In y (n_states A).
-  Proof. intro H. apply keyed_in. eapply edge_src_keyed. exact H. Qed.
 
   Lemma reverse_path_bwd x w y : gpath ER x w y -> In x (n_states A) ->
     In y (n_states A) /\ gpath (n_edge A) y (rev w) x.
   Proof.
     intro H. induction H as [x|x y1 z w He Hp IH|x a y1 z w He Hp IH]; intro Hx.
     - split; [exact Hx|apply gp_refl].
-    - apply reverse_edge in He; [|exact Hx]. destruct (IH (reverse_src_in _ _ _ He)) as [Hz Hp'].
+    - apply reverse_edge in He; [|exact Hx]. destruct He as [Hy1 He]. destruct (IH Hy1) as [Hz Hp'].
       split; [exact Hz|]. eapply gpath_snoc_eps; eassumption.
-    - apply reverse_edge in He; [|exact Hx]. destruct (IH (reverse_src_in _ _ _ He)) as [Hz Hp'].
+    - apply reverse_edge in He; [|exact Hx]. destruct He as [Hy1 He]. destruct (IH Hy1) as [Hz Hp'].
       split; [exact Hz|]. simpl. eapply gpath_snoc_sym; eassumption.
   Qed.
 
@@ -1210,9 +1196,9 @@ Section Reverse.
     intro H. induction H as [y|y y1 x u He Hp IH|y a y1 x u He Hp IH]; intro Hy.
     - apply gp_refl.
     - pose proof (edge_in_states A Hv _ _ _ He) as Hy1.
-      eapply gpath_snoc_eps; [apply IH; exact Hy1|]. apply reverse_edge; assumption.
+      eapply gpath_snoc_eps; [apply IH; exact Hy1|]. apply reverse_edge; [exact Hy1|split; assumption].
     - pose proof (edge_in_states A Hv _ _ _ He) as Hy1. simpl.
-      eapply gpath_snoc_sym; [apply IH; exact Hy1|]. apply reverse_edge; assumption.
+      eapply gpath_snoc_sym; [apply IH; exact Hy1|]. apply reverse_edge; [exact Hy1|split; assumption].
   Qed.
 
   Lemma reverse_rows_ok : rows_ok xs (n_syms A) (reverse_rowof A n).
@@ -1228,7 +1214,7 @@ Section Reverse.
       clear Ha. rename Ha' into Ha. split.
       + unfold okeys in Ha. destruct Ha as [<-|Ha]; [reflexivity|].
         apply in_map_iff in Ha. destruct Ha as [s [<- Hs]]. simpl. apply memb_In. exact Hs.
-      + intros z Hz. apply (fr_in A). apply rev_sources_In in Hz. eapply reverse_src_in. exact Hz.
+      + intros z Hz. apply (fr_in A). apply rev_sources_In in Hz. apply Hz.
   Qed.
 
   Lemma reverse_pre_valid : valid_nfa (reverse_pre A) = true.
@@ -1265,15 +1251,14 @@ Section ReverseThms.
   Variable A : nfa.
   Hypothesis Hv : valid_nfa A = true.
 
-  Theorem ops_reverse_total : rows_keyed A = true -> exists R, nfa_reverse A = Ok R /\ valid_nfa R = true.
+  Theorem ops_reverse_total : exists R, nfa_reverse A = Ok R /\ valid_nfa R = true.
   Proof.
-    intro Hk. exists (reverse_pre A). split; [|apply reverse_pre_valid; assumption].
-    unfold nfa_reverse. rewrite Hk. apply check_nfa_ok. apply reverse_pre_valid; assumption.
+    exists (reverse_pre A). split; [|apply reverse_pre_valid; assumption].
+    unfold nfa_reverse. apply check_nfa_ok. apply reverse_pre_valid; assumption.
   Qed.
   Theorem ops_reverse_lang R : nfa_reverse A = Ok R -> L_nfa R =L l_rev (L_nfa A).
   Proof.
-    unfold nfa_reverse. destruct (rows_keyed A) eqn:Hk; [|discriminate].
-    intro H. apply check_nfa_inv in H. destruct H as [-> _]. apply reverse_pre_lang; assumption.
+    unfold nfa_reverse. intro H. apply check_nfa_inv in H. destruct H as [-> _]. apply reverse_pre_lang; assumption.
   Qed.
 End ReverseThms.
 
@@ -2575,54 +2560,6 @@ End ElimOpThms.
 
 (* ------------------------------------------------------------------ *)
 (* compositions *)
-Lemma asm_rows_keyed {X} (enc : X -> nat) xs syms rowof x0 fin :
-  rows_keyed (assemble enc xs syms rowof x0 fin) = true.
-Proof.
-  unfold rows_keyed, assemble. simpl. apply forallb_forall. intros [k r] Hin. simpl.
-  apply in_flat_map in Hin. destruct Hin as [x [Hx Hin]]. destruct (rowof x); [|destruct Hin].
-  destruct Hin as [Hin|[]]. injection Hin as <- _. apply memb_In. apply in_map. exact Hx.
-Qed.
-
-Section Keyed.
-  Variables A B : nfa.
-  Lemma union_keyed R : nfa_union A B = Ok R -> rows_keyed R = true.
-  Proof.
-    unfold nfa_union. destruct (lookups_ok A && lookups_ok B); [|discriminate]. intro H.
-    apply check_nfa_inv in H. destruct H as [-> _]. apply asm_rows_keyed.
-  Qed.
-  Lemma concat_keyed R : nfa_concat A B = Ok R -> rows_keyed R = true.
-  Proof.
-    unfold nfa_concat. destruct (lookups_ok A && lookups_ok B); [|discriminate]. intro H.
-    apply check_nfa_inv in H. destruct H as [-> _]. apply asm_rows_keyed.
-  Qed.
-  Lemma star_keyed R : nfa_star A = Ok R -> rows_keyed R = true.
-  Proof. intro H. apply check_nfa_inv in H. destruct H as [-> _]. apply asm_rows_keyed. Qed.
-  Lemma option_keyed R : nfa_option A = Ok R -> rows_keyed R = true.
-  Proof. intro H. apply check_nfa_inv in H. destruct H as [-> _]. apply asm_rows_keyed. Qed.
-  Lemma reverse_keyed R : nfa_reverse A = Ok R -> rows_keyed R = true.
-  Proof.
-    unfold nfa_reverse. destruct (rows_keyed A); [|discriminate]. intro H.
-    apply check_nfa_inv in H. destruct H as [-> _]. apply asm_rows_keyed.
-  Qed.
-  Lemma inter_keyed R : nfa_intersection A B = Ok R -> rows_keyed R = true.
-  Proof.
-    unfold nfa_intersection. destruct (inter_states A B); [|discriminate]. intro H.
-    apply check_nfa_inv in H. destruct H as [-> _]. apply asm_rows_keyed.
-  Qed.
-  Lemma shuffle_keyed R : nfa_shuffle A B = Ok R -> rows_keyed R = true.
-  Proof. intro H. apply check_nfa_inv in H. destruct H as [-> _]. apply asm_rows_keyed. Qed.
-  Lemma rquot_keyed R : nfa_right_quotient A B = Ok R -> rows_keyed R = true.
-  Proof.
-    unfold nfa_right_quotient. destruct (elim_parts A); [|discriminate]. destruct (elim_parts B); [|discriminate].
-    simpl. intro H. apply check_nfa_inv in H. destruct H as [-> _]. apply asm_rows_keyed.
-  Qed.
-  Lemma lquot_keyed R : nfa_left_quotient A B = Ok R -> rows_keyed R = true.
-  Proof.
-    unfold nfa_left_quotient. destruct (elim_parts A); [|discriminate]. destruct (elim_parts B); [|discriminate].
-    simpl. intro H. apply check_nfa_inv in H. destruct H as [-> _]. apply asm_rows_keyed.
-  Qed.
-End Keyed.
-
 (* the language operations respect language equality *)
 Section LangExt.
   Variables A A' B B' : lang.
@@ -2677,54 +2614,53 @@ Fixpoint nexp_den (e : nexp) : lang :=
   end.
 
 Definition eval_good (e : nexp) : Prop :=
-  exists R, nfa_eval e = Ok R /\ valid_nfa R = true /\ rows_keyed R = true /\ L_nfa R =L nexp_den e.
+  exists R, nfa_eval e = Ok R /\ valid_nfa R = true /\ L_nfa R =L nexp_den e.
 
 Theorem ops_compose e : nexp_leaves_ok e = true -> eval_good e.
 Proof.
   induction e as [A|e IHe f IHf|e IHe f IHf|e IHe|e IHe|e IHe|e IHe f IHf|e IHe f IHf|e IHe f IHf|e IHe f IHf];
     simpl; intro Hok; unfold eval_good; simpl.
-  - apply andb_true_iff in Hok. destruct Hok as [Hv Hk]. exists A. split; [reflexivity|]. split; [exact Hv|].
-    split; [exact Hk|apply lang_eq_refl].
+  - exists A. split; [reflexivity|]. split; [exact Hok|apply lang_eq_refl].
   - apply andb_true_iff in Hok. destruct Hok as [H1 H2].
-    destruct (IHe H1) as [a [Ea [Va [Ka La]]]]. destruct (IHf H2) as [b [Eb [Vb [Kb Lb]]]].
-    destruct (ops_union_total a b Va Vb Ka Kb) as [R [ER VR]]. exists R. unfold bind2. rewrite Ea, Eb. simpl.
-    split; [exact ER|]. split; [exact VR|]. split; [eapply union_keyed; exact ER|].
+    destruct (IHe H1) as [a [Ea [Va La]]]. destruct (IHf H2) as [b [Eb [Vb Lb]]].
+    destruct (ops_union_total a b Va Vb) as [R [ER VR]]. exists R. unfold bind2. rewrite Ea, Eb. simpl.
+    split; [exact ER|]. split; [exact VR|].
     eapply lang_eq_trans; [apply (ops_union_lang a b Va Vb R ER)|apply l_union_ext; assumption].
   - apply andb_true_iff in Hok. destruct Hok as [H1 H2].
-    destruct (IHe H1) as [a [Ea [Va [Ka La]]]]. destruct (IHf H2) as [b [Eb [Vb [Kb Lb]]]].
-    destruct (ops_concat_total a b Va Vb Ka Kb) as [R [ER VR]]. exists R. unfold bind2. rewrite Ea, Eb. simpl.
-    split; [exact ER|]. split; [exact VR|]. split; [eapply concat_keyed; exact ER|].
+    destruct (IHe H1) as [a [Ea [Va La]]]. destruct (IHf H2) as [b [Eb [Vb Lb]]].
+    destruct (ops_concat_total a b Va Vb) as [R [ER VR]]. exists R. unfold bind2. rewrite Ea, Eb. simpl.
+    split; [exact ER|]. split; [exact VR|].
     eapply lang_eq_trans; [apply (ops_concat_lang a b Va Vb R ER)|apply l_cat_ext; assumption].
-  - destruct (IHe Hok) as [a [Ea [Va [Ka La]]]].
+  - destruct (IHe Hok) as [a [Ea [Va La]]].
     destruct (ops_star_total a Va) as [R [ER VR]]. exists R. rewrite Ea. simpl.
-    split; [exact ER|]. split; [exact VR|]. split; [eapply star_keyed; exact ER|].
+    split; [exact ER|]. split; [exact VR|].
     eapply lang_eq_trans; [apply (ops_star_lang a Va R ER)|apply l_star_ext; assumption].
-  - destruct (IHe Hok) as [a [Ea [Va [Ka La]]]].
+  - destruct (IHe Hok) as [a [Ea [Va La]]].
     destruct (ops_option_total a Va) as [R [ER VR]]. exists R. rewrite Ea. simpl.
-    split; [exact ER|]. split; [exact VR|]. split; [eapply option_keyed; exact ER|].
+    split; [exact ER|]. split; [exact VR|].
     eapply lang_eq_trans; [apply (ops_option_lang a Va R ER)|apply l_opt_ext; assumption].
-  - destruct (IHe Hok) as [a [Ea [Va [Ka La]]]].
-    destruct (ops_reverse_total a Va Ka) as [R [ER VR]]. exists R. rewrite Ea. simpl.
-    split; [exact ER|]. split; [exact VR|]. split; [eapply reverse_keyed; exact ER|].
+  - destruct (IHe Hok) as [a [Ea [Va La]]].
+    destruct (ops_reverse_total a Va) as [R [ER VR]]. exists R. rewrite Ea. simpl.
+    split; [exact ER|]. split; [exact VR|].
     eapply lang_eq_trans; [apply (ops_reverse_lang a Va R ER)|apply l_rev_ext; assumption].
   - apply andb_true_iff in Hok. destruct Hok as [H1 H2].
-    destruct (IHe H1) as [a [Ea [Va [Ka La]]]]. destruct (IHf H2) as [b [Eb [Vb [Kb Lb]]]].
+    destruct (IHe H1) as [a [Ea [Va La]]]. destruct (IHf H2) as [b [Eb [Vb Lb]]].
     destruct (ops_inter_total a b Va Vb) as [R [ER VR]]. exists R. unfold bind2. rewrite Ea, Eb. simpl.
-    split; [exact ER|]. split; [exact VR|]. split; [eapply inter_keyed; exact ER|].
+    split; [exact ER|]. split; [exact VR|].
     eapply lang_eq_trans; [apply (ops_inter_lang a b Va R ER)|apply l_inter_ext; assumption].
   - apply andb_true_iff in Hok. destruct Hok as [H1 H2].
-    destruct (IHe H1) as [a [Ea [Va [Ka La]]]]. destruct (IHf H2) as [b [Eb [Vb [Kb Lb]]]].
+    destruct (IHe H1) as [a [Ea [Va La]]]. destruct (IHf H2) as [b [Eb [Vb Lb]]].
     destruct (ops_shuffle_total a b Va Vb) as [R [ER VR]]. exists R. unfold bind2. rewrite Ea, Eb. simpl.
-    split; [exact ER|]. split; [exact VR|]. split; [eapply shuffle_keyed; exact ER|].
+    split; [exact ER|]. split; [exact VR|].
     eapply lang_eq_trans; [apply (ops_shuffle_lang a b Va Vb R ER)|apply l_shuffle_ext; assumption].
   - apply andb_true_iff in Hok. destruct Hok as [H1 H2].
-    destruct (IHe H1) as [a [Ea [Va [Ka La]]]]. destruct (IHf H2) as [b [Eb [Vb [Kb Lb]]]].
+    destruct (IHe H1) as [a [Ea [Va La]]]. destruct (IHf H2) as [b [Eb [Vb Lb]]].
     destruct (ops_rquot_total a b Va Vb) as [R [ER VR]]. exists R. unfold bind2. rewrite Ea, Eb. simpl.
-    split; [exact ER|]. split; [exact VR|]. split; [eapply rquot_keyed; exact ER|].
+    split; [exact ER|]. split; [exact VR|].
     eapply lang_eq_trans; [apply (ops_rquot_lang a b Va Vb R ER)|apply l_rquot_ext; assumption].
   - apply andb_true_iff in Hok. destruct Hok as [H1 H2].
-    destruct (IHe H1) as [a [Ea [Va [Ka La]]]]. destruct (IHf H2) as [b [Eb [Vb [Kb Lb]]]].
+    destruct (IHe H1) as [a [Ea [Va La]]]. destruct (IHf H2) as [b [Eb [Vb Lb]]].
     destruct (ops_lquot_total a b Va Vb) as [R [ER VR]]. exists R. unfold bind2. rewrite Ea, Eb. simpl.
-    split; [exact ER|]. split; [exact VR|]. split; [eapply lquot_keyed; exact ER|].
+    split; [exact ER|]. split; [exact VR|].
     eapply lang_eq_trans; [apply (ops_lquot_lang a b Va Vb R ER)|apply l_lquot_ext; assumption].
 Qed.
